@@ -417,7 +417,8 @@ CLASSES = {
         lambda e: e["kind"] == "panic" and has_incomplete_record(e["text"]) and (
             (in_file(e, RECCHK) and "entered unreachable code" in e["msg"])
             or (in_file(e, TYPING) and re.search(r'"(self|_)" should not be shown at type inference stage', e["msg"]) and e["stage"] in EMIT)
-            or (in_file(e, BCGEN) and re.match(r"value extfun \S+ ! not found", e["msg"]) and e["stage"] == "emit_bytecode")),
+            or (in_file(e, BCGEN) and re.match(r"value extfun \S+ ! not found", e["msg"])
+                and (e["stage"] == "emit_bytecode" or (e["stage"] == "emit_wasm" and "stage" in toks_of(e["text"]))))),
     # F47: unimplemented!() arm of typing for Assign(ArrayAccess, _)
     "assignment-to-index-expression":
         lambda e: e["kind"] == "panic" and in_file(e, TYPING) and "Assignment to array is not implemented yet" in e["msg"],
@@ -471,6 +472,12 @@ CLASSES["fabricated-span-0-1-inside-multibyte-char"] = (
     and len(e["text"]) > 0 and len(e["text"][0].encode("utf-8")) > 1)
 
 
+CLASSES["letrec-of-non-function"] = (
+    # F58: mirgen binds the name of a `letrec` to Value::Function(next index) before looking at the bound expression; when that is
+    #      no lambda the index names no function
+    lambda e: e["kind"] == "panic" and e["stage"] in EMIT and "letrec" in toks_of(e["text"])
+    and ((in_file(e, MIRGEN) and re.match(r"index out of bounds: the len is \d+ but the index is \d+", e["msg"]) is not None)
+         or (in_file(e, BCGEN) and re.match(r"value function \d+ not found", e["msg"]) is not None)))
 CLASSES["compile-continues-after-parse-errors"] = (
     # F57: Context::emit_mir hands the recovered AST (with Expr::Error placeholders) to the whole compiler and looks at the parse
     #      errors only afterwards.  Only for texts WITH parse errors, only panics of the compile entry points that the type check
@@ -764,12 +771,12 @@ def run(ck):
         t0 = time.time()
         items = list(enumerate(texts))
         res = oracle_run(front, items, limit=limit, stack=stack)
-        # an abort may be a stack overflow of a finite recursion (nesting) or an infinite one: ask again with 32x the stack
+        # an abort may be a stack overflow of a finite recursion (nesting) or an infinite one: ask again with 16x the stack
         crashed_ids = [i for i, _ in items if "crash" in (res.get(i) or {})]
         big = {}
         if crashed_ids:
             def again(i):
-                r2 = oracle_run(front, [(0, texts[i])], limit=limit, stack=stack * 32, workers=1)
+                r2 = oracle_run(front, [(0, texts[i])], limit=limit, stack=stack * 16, workers=1)
                 return i, r2.get(0) or {}
             with concurrent.futures.ThreadPoolExecutor(max_workers=8) as ex:
                 for i, r2 in ex.map(again, crashed_ids[:400]):
@@ -791,10 +798,12 @@ def run(ck):
                 continue
             if "crash" in r:
                 r2 = big.get(i, {})
+                if os.environ.get("VERIF_C04_DEBUG"):
+                    log("abort", repr(t[:50]), r, r2)
                 ev = {"kind": "abort", "stage": r.get("stage", "?"), "file": "", "msg": r["crash"], "text": t, "parse_errors": False,
-                      "still_aborts_with_big_stack": "crash" in r2 and r2.get("stage") == r.get("stage")}
-                report(origin, t, ev, "abort", r["crash"] + (" (also with a %d MiB stack: unbounded recursion)" % (stack * 32) if ev["still_aborts_with_big_stack"]
-                                                             else " (not with a %d MiB stack: recursion depth)" % (stack * 32)))
+                      "still_aborts_with_big_stack": ("crash" in r2 or "timeout" in r2) and r2.get("stage") == r.get("stage")}
+                report(origin, t, ev, "abort", r["crash"] + (" (overflows / runs on with a %d MiB stack too: unbounded recursion)" % (stack * 16) if ev["still_aborts_with_big_stack"]
+                                                             else " (not with a %d MiB stack: recursion depth)" % (stack * 16)))
                 continue
             sts = r.get("st", [])
             perr = any(s_[0] == "parse_to_expr" and s_[1] == "D" for s_ in sts)
@@ -905,7 +914,10 @@ def run(ck):
     nest.append("fn dsp(){ " + "if (1.0) " * NEST_BOUND + "1.0" + " else 0.0" * NEST_BOUND + " }")
     nest.append("fn dsp(){ " + "|x| " * NEST_BOUND + "1.0 }")
     nest.append("let x : " + "(" * NEST_BOUND + "float" + ")" * NEST_BOUND + " = 1.0")
-    both("nesting-bound", nest)
+    # (type checking a nested array literal of depth d costs ~d^4: 200 levels take several seconds, hence the longer limit)
+    if not state["stop"]:
+        cst_phase("nesting-bound", nest)
+        oracle_phase("nesting-bound", nest, limit=90)
     ck.coverage["nesting_bound_levels"] = NEST_BOUND
     ck.coverage["nesting_inputs"] = len(nest)
     # measured (informative): where the stack really overflows
